@@ -60,7 +60,7 @@ class ProcRec(EqByMode, desper.Processor):
     def _mapped(self, event, method):
         # which method does this processor's class map the event to?  (on_add / on_remove exist on every class:
         # calling them on a class that maps the event to another method is calling the wrong method)
-        return getattr(type(self), '__events__', {}).get(event, method) == method
+        return getattr(type(self), '_declared', {}).get(event, method) == method
 
     def on_add(self, *a):
         self._log.append(('on_add' if self._mapped('on_add', 'on_add') else 'unmapped_method_on_add', self, a))
@@ -153,9 +153,15 @@ def run_case(case):
         if names and ev & P_RENAMED:
             # event_handler(on_add='added', on_remove='removed'): the callbacks are not named like the events (the
             # inherited on_add / on_remove of ProcRec must NOT be what runs)
-            desper.event_handler(**{nm: {'on_add': 'added', 'on_remove': 'removed'}[nm] for nm in names})(cls)
+            own = {nm: {'on_add': 'added', 'on_remove': 'removed'}[nm] for nm in names}
+            desper.event_handler(**own)(cls)
         elif names:
+            own = {nm: nm for nm in names}
             desper.event_handler(*names)(cls)
+        if names:
+            # what the class declares, from the spec alone (never read back from __events__): its first ancestor's
+            # declarations, extended and overridden by its own
+            cls._declared = {**getattr(cls, '_declared', {}), **own}
     n = len(classes)
     world = desper.World()
     model = []          # [instance] in expected order
@@ -164,7 +170,7 @@ def run_case(case):
     step_ix = -1
 
     def maps(p, ev):
-        return ev in getattr(type(p), '__events__', {})
+        return ev in getattr(type(p), '_declared', {})
 
     def new(cix):
         p = classes[cix % n]()
@@ -196,7 +202,7 @@ def run_case(case):
             viol('processors_not_in_priority_then_insertion_order', got=[repr(p) for p in procs],
                  expected=[repr(p) for p in model])
         for p in made:
-            if hasattr(type(p), '__events__'):
+            if hasattr(type(p), '_declared'):
                 if world.is_handler(p) != any(p is m for m in model):
                     viol('processor_is_handler_exactly_while_registered', processor=repr(p),
                          is_handler=world.is_handler(p))
